@@ -58,6 +58,19 @@ CHECKS["C05"] = dict(
               "Denote on every observed literal",
 )
 
+CHECKS["C13"] = dict(
+    text="TLC checks that the implementation layer of VyLazyList (memoising cursor, every method as written) refines "
+         "the plain list for every source <= 3 over {0,1,2} and every observation history (Refines, CachePrefix, "
+         "AppendOnly). Every observation path of the tier's length over the specification's 28 parametrised "
+         "operations is stepped through a fresh real LazyList and TLC validates each logged answer against the "
+         "plain-list answer and the logged cache against the Impl layer in lock-step (Trace_LazyList).",
+    note="Trusted: Abs layer = Vyxal list semantics (wrapping index, Python negative index, truncating slices); "
+         "path length 2 (quick) / 3 (thorough) exhaustive, random histories to length 12 beyond.",
+    ref="DESIGN.md section 6 C13",
+    technique="TLA+ refinement spec (VyLazyList Abs/Impl) model-checked by TLC + lock-step TLC validation of "
+              "observation histories replayed into the real LazyList",
+)
+
 NOT_APPLICABLE = {}
 
 DEFAULT_NA = ("check under construction in this round; it will be claimed when its TLA+ module and "
